@@ -1,2 +1,5 @@
 import DnpProofs.Lemmas.Arr
 import DnpProofs.Lemmas.Perm
+import DnpProofs.Lemmas.Relabel
+import DnpProofs.Lemmas.Sort
+import DnpProofs.Props.C02
